@@ -10,6 +10,7 @@ CONSTANTS
   MinMemMerge = 2
   KeepN = 1
   TruncateOnPersist = TRUE
+  WaitForSwap = TRUE
   MaxInv = 2
   MaxCrash = 2
   MaxMerges = 0
